@@ -20,7 +20,7 @@ MANIFEST = {
     'technique': 'runtime monitoring: metamorphic comment injection at enumerated writer slots + capture oracle + offline checker over emitted DBML/SQL',
 }
 LEVEL = 'exploration'
-BUDGET = {'quick': 45, 'thorough': 400}
+BUDGET = {'quick': 90, 'thorough': 400}
 RULE = ('(host document, slot, comment form) for inertness; (element kind, above?, trailing?, form, content) for capture; '
         '(document) for emission; distinct by text hash; non-trivial = the comment was planted inside or next to an element')
 ASSUMPTIONS = ['the host without the planted comment parses (control)', 'CPython/pyparsing trusted']
